@@ -254,24 +254,15 @@ fn d24() -> Result<(), String> {
     }
 }
 const R3: &str = "CREATE TABLE t(line = '^([^;]*);([0-9-]*);([0-9-]*)$', line[1] => r REAL, line[2] => v INT, line[3] => w INT);";
-// D72 (C04, candidate): VARIANCE / STDDEV by the one-pass formula (Σx² − (Σx)²/n)/n in REAL arithmetic: the subtraction
-// cancels, and over EQUAL values (exact variance 0, exact standard deviation 0) the cell can be NEGATIVE and STDDEV NaN.
-// A variance is never negative and a standard deviation is a number: demanded here is only that (two decimals, `0.00`).
-// Lean: `Props/C04Variance.lean` `d72_variance_negative_real`, `d72_variance_negative_int` (same inputs, same cells).
+// D72 (C04, repaired): VARIANCE / STDDEV used to be the one-pass formula (Σx² − (Σx)²/n)/n in REAL arithmetic for INT and REAL
+// arguments alike: the subtraction cancels, and over EQUAL values (exact variance 0) the cell was NEGATIVE and STDDEV NaN
+// (`variance0: -0.00, stddev1: NaN` over three REAL rows 0.1; `variance0: -146.29, stddev1: NaN` over seven INT rows
+// 1000000007; `variance0: 10.67, stddev1: 3.27` over three INT rows 300000007). Regression witness: all three print 0.00 / 0.00.
+// Lean: `Props/C04Variance.lean` `d72_repaired_real`, `d72_repaired_int`, `d72_repaired_equal_ints` (same inputs, same cells).
 fn d72() -> Result<(), String> {
-    // documented deviation (open): exactly `variance0: -0.00, stddev1: NaN` (REAL 0.1 three times: −1.1564823173178713e-18)
-    let real = run_batch(R3, "SELECT VARIANCE(r), STDDEV(r) FROM t", "0.1;;\n0.1;;\n0.1;;\n");
-    // … and exactly `variance0: -146.29, stddev1: NaN` (INT 1000000007 seven times; every sum far inside 64 bits)
-    let int = run_batch(R3, "SELECT VARIANCE(v), STDDEV(v) FROM t", &";1000000007;\n".repeat(7));
-    let a = expect_lines_or_known(real, &["variance0: 0.00, stddev1: 0.00"], &["variance0: -0.00, stddev1: NaN"]);
-    let b = expect_lines_or_known(int, &["variance0: 0.00, stddev1: 0.00"], &["variance0: -146.29, stddev1: NaN"]);
-    match (a, b) {
-        (Ok(()), Ok(())) => Ok(()),
-        // the finding's class only when BOTH runs show exactly the documented cells (or one of them is right)
-        (Err(x), Ok(())) | (Ok(()), Err(x)) => Err(x),
-        (Err(x), Err(y)) if x.starts_with(KNOWN_DEVIATION) && y.starts_with(KNOWN_DEVIATION) => Err(format!("{} ;; {}", x, &y[KNOWN_DEVIATION.len()..])),
-        (Err(x), Err(y)) => Err(format!("{} ;; {}", x.trim_start_matches(KNOWN_DEVIATION), y.trim_start_matches(KNOWN_DEVIATION))),
-    }
+    expect_lines(run_batch(R3, "SELECT VARIANCE(r), STDDEV(r) FROM t", "0.1;;\n0.1;;\n0.1;;\n"), &["variance0: 0.00, stddev1: 0.00"])?;
+    expect_lines(run_batch(R3, "SELECT VARIANCE(v), STDDEV(v) FROM t", &";1000000007;\n".repeat(7)), &["variance0: 0.00, stddev1: 0.00"])?;
+    expect_lines(run_batch(R3, "SELECT VARIANCE(v), STDDEV(v) FROM t", &";300000007;\n".repeat(3)), &["variance0: 0.00, stddev1: 0.00"])
 }
 // D60 (C11): GROUP BY over REAL keys 0.0 / -0.0 (equal in the value order, printed differently): the table shown after
 // the second line fed incrementally must equal the batch table over both lines
@@ -523,7 +514,7 @@ pub fn all() -> Vec<Witness> {
         w!("D67", &["C04"], "STRING_AGG swallows the delimiter after a leading empty text", d67),
         w!("D69", &["C03"], "a condition (WHERE, HAVING, operand of AND / OR, WHEN) that is neither BOOLEAN nor NULL counts as false instead of being an error", d69),
         w!("D66", &["C02"], "a JSON number with fraction / exponent is not the nearest REAL (one unit in the last place off f64::from_str of the same text)", d66),
-        w!("D72", &["C04"], "VARIANCE / STDDEV over equal values: the one-pass formula cancels, VARIANCE is negative and STDDEV NaN", d72),
+        w!("D72", &["C04"], "VARIANCE / STDDEV over equal values: the one-pass formula cancelled, VARIANCE was negative and STDDEV NaN (repaired)", d72),
         w!("D60", &["C11"], "REAL keys 0.0 / -0.0: follow mode and batch mode show different representatives of one group", d60),
         w!("D65", &["C11"], "follow mode, CSV, aggregate statement: the header was shown on the first screen only (fixed e80a2b6)", d65),
         w!("D61", &["C11"], "follow mode, aggregate over a join: a line with several partners showed one table per partner, concatenated (fixed 7277b4c)", d61),
